@@ -565,7 +565,11 @@ def transform_body(body, dirs, log):
                 edits.append((k, br, f'let mut verif_it: usize = {lo_}; let verif_end: usize = {hi_}; while verif_it < verif_end '))
                 edits.append((br + 1, br + 1, f' let {var} = verif_it; verif_it = verif_it + 1;'))
             else:
-                raise LostAnchor(f'FORWHILE loop #{n}: head {body[k:br]!r} is not `for x in a..b` / `for x in (a..b).rev()`')
+                mi = re.fullmatch(r'for\s+(.+?)\s+in\s+(\w+)\s*', body[k:br], flags=re.S)
+                if not mi:
+                    raise LostAnchor(f'FORWHILE loop #{n}: head {body[k:br]!r} is not `for x in a..b` / `for x in (a..b).rev()` / `for p in ident`')
+                # `for P in it {B}` over an ITERATOR `it` is `while let Some(P) = it.next() {B}`
+                edits.append((k, br, f'while let Some({mi.group(1)}) = {mi.group(2)}.next() '))
             log['R9 for-range loop desugared to while'] = log.get('R9 for-range loop desugared to while', 0) + 1
         elif kind == 'CUTBLOCK':
             anchor, rep = d[1], d[2]
